@@ -1,7 +1,7 @@
 (* Entry point of the executable model: one case tree in, one result tree out. The first leaf selects
    the property, the second the operation. The harness sends the same case to the implementation. *)
 From ToughV Require Import Model.Base Model.Pct Model.Json Model.CJson Model.ClientRun Model.TName
-     Model.Glob Model.Deleg Model.Keys.
+     Model.Glob Model.Deleg Model.Keys Model.Editor.
 
 Definition run_C16 (op : N) (a : list tree) : tree :=
   match op, a with
@@ -99,6 +99,12 @@ Definition run_C13 (op : N) (a : list tree) : tree :=
     | _ => T [L 999]
     end.
 
+Definition run_C17 (op : N) (a : list tree) : tree :=
+  match a with
+  | [kept; v; added] => tree_of_rview (update (t_bool kept) (rview_of_tree v) (kvs_of_tree added))
+  | _ => T [L 999]
+  end.
+
 Definition run_case (t : tree) : tree :=
   match t with
   | T (L p :: L op :: args) =>
@@ -107,6 +113,7 @@ Definition run_case (t : tree) : tree :=
       else if p =? 8 then run_C08 op args
       else if p =? 7 then run_C07 op args
       else if p =? 13 then run_C13 op args
+      else if p =? 17 then run_C17 op args
       else if p =? 6 then run_client op args
       else T [L 999]
   | _ => T [L 999]
